@@ -62,7 +62,9 @@ AddOps ==
        {[op |-> "add_global", ty |-> TyOfInit(i), mut |-> m, init |-> i] : i \in Inits, m \in BOOLEAN}
   \cup {[op |-> "mod_init", g |-> 0, init |-> [k |-> "i32", v |-> "99"]]}
   \cup {[op |-> "add_data", kind |-> "passive", bytes |-> "00ff80"],
-        [op |-> "add_data", kind |-> "active", mem |-> 0, off |-> [k |-> "i32", v |-> "16"], bytes |-> "6162"]}
+        [op |-> "add_data", kind |-> "active", mem |-> 0, off |-> [k |-> "i32", v |-> "16"], bytes |-> "6162"],
+        \* offset global.get 1: the added immutable imported global (see the guard in Step)
+        [op |-> "add_data", kind |-> "active", mem |-> 0, off |-> [k |-> "global", id |-> 1], bytes |-> "63"]}
   \cup {[op |-> "add_memory", kind |-> "local", initial |-> 2, max |-> 4, n |-> nb],
         [op |-> "add_memory", kind |-> "local", initial |-> 3, n |-> nb],
         [op |-> "add_memory", kind |-> "local", initial |-> 1, max |-> 2, m64 |-> TRUE, n |-> nb],
@@ -73,7 +75,7 @@ AddOps ==
   \cup {[op |-> "add_export", kind |-> "func", id |-> 2, n |-> nb], [op |-> "add_export", kind |-> "mem", id |-> 0, n |-> nb]}
 
 CustOps ==
-       {[op |-> "cust_add", name |-> nm, bytes |-> "aa0" \o ToString(nb)] : nm \in {"c0", "new"}}
+       {[op |-> "cust_add", name |-> nm, bytes |-> "aa0" \o ToString(nb)] : nm \in {"c0", "new", "dylink.0"}}
   \cup {[op |-> "cust_del", id |-> i] : i \in 0 .. 3}
   \cup {[op |-> "cust_mod", id |-> i, bytes |-> "bb0" \o ToString(nb)] : i \in 0 .. 3}
 
@@ -105,6 +107,7 @@ Step == /\ Len(prog) < MaxOps
                     /\ o.op = "build" /\ o.via # "replace" /\ ~\E i \in DOMAIN o.body : o.body[i] = "call_0")
              \* global.get 1 in an initialiser: only when handle 1 is the added immutable imported global
              /\ ((o.op = "add_global" /\ o.init.k = "global") => (prog # <<>> /\ prog[1].op = "add_iglobal"))
+             /\ ((o.op = "add_data" /\ o.kind = "active" /\ o.off.k = "global") => (prog # <<>> /\ prog[1].op = "add_iglobal"))
              \* the constant variety matters per call, not per combination: at most one non-i32 initialiser per program
              /\ ((o.op = "add_global" /\ o.init.k # "i32") => ~\E j \in DOMAIN prog : prog[j].op = "add_global" /\ prog[j].init.k # "i32")
              /\ prog' = Append(prog, o)
